@@ -51,6 +51,28 @@ Theorem C12_output_dupfree :
 Proof. exact output_dupfree. Qed.
 Print Assumptions C12_output_dupfree.
 
+(* pairwise distinct probabilities, any tie-breaks satisfying the SQL contract: at exit no
+   admissible cross edge remains, i.e. every remaining >= threshold edge between two different
+   clusters joins clusters that both contain a record of one duplicate-free dataset *)
+Theorem C12_maximal_tiefree :
+  forall dfs thr (chl chr : chooser) fuel nodes E out,
+    NoDup (map n_id nodes) -> tie_free E -> rank1_ok chl -> rank1_ok chr ->
+    oto_loop dfs (df_neighbours thr E) chl chr fuel 1 (df_representatives nodes) = Some out ->
+    forall v w, ~ admissible_cross dfs thr E out v w.
+Proof. exact maximal_tiefree. Qed.
+Print Assumptions C12_maximal_tiefree.
+
+(* every cluster lies inside one connected component of the >= threshold graph (paths may leave
+   the cluster): for all tie-breaks.  The full statement (paths inside the cluster, tie-free) is
+   NOT proved: see C12_connected_tiefree_partial below and meta/C12.json. *)
+Theorem C12_connected_tiefree_partial :
+  forall dfs thr (chl chr : chooser) fuel nodes E out,
+    NoDup (map n_id nodes) ->
+    oto_loop dfs (df_neighbours thr E) chl chr fuel 1 (df_representatives nodes) = Some out ->
+    forall v c s, In (v, c, s) out -> conn_in thr E (fun _ => True) v c.
+Proof. exact connected_weak. Qed.
+Print Assumptions C12_connected_tiefree_partial.
+
 (* with ties and adversarial (but legal) tie-breaks a final class can be disconnected:
    5 records, record 3 in the duplicate-free dataset 1, edges 0-3 (.7), 1-4, 2-4, 3-4 (.9);
    rank_l breaks ties towards the first row, rank_r towards the last. Final class {1,2}. *)
@@ -70,3 +92,16 @@ Example C12_example_1 :
     [(0,1,(90#100)%Q);(1,2,(70#100)%Q);(3,5,(85#100)%Q);(4,5,(90#100)%Q);(6,5,(80#100)%Q);(6,7,(70#100)%Q)]
   = Some [(0,0);(1,0);(2,0);(3,3);(4,3);(5,3);(6,6);(7,6);(8,8)].
 Proof. vm_compute. reflexivity. Qed.
+
+(* non-vacuity of the tie-free hypotheses: distinct probabilities, first_max/last_max are legal *)
+Example C12_example_tiefree :
+  tie_free [(0,1,(90#100)%Q);(1,2,(70#100)%Q);(3,5,(85#100)%Q);(4,5,(91#100)%Q);(6,5,(80#100)%Q);(6,7,(71#100)%Q)]
+  /\ rank1_ok first_max /\ rank1_ok last_max /\
+  one_to_one_clustering [0; 2] (Some (1 # 2)%Q) first_max last_max 20
+    [(0,0);(1,1);(2,2);(3,0);(4,1);(5,2);(6,0);(7,1);(8,2)]
+    [(0,1,(90#100)%Q);(1,2,(70#100)%Q);(3,5,(85#100)%Q);(4,5,(91#100)%Q);(6,5,(80#100)%Q);(6,7,(71#100)%Q)]
+  = Some [(0,0);(1,0);(2,0);(3,3);(4,3);(5,3);(6,6);(7,6);(8,8)].
+Proof.
+  split; [|split; [exact first_max_ok|split; [exact last_max_ok|vm_compute; reflexivity]]].
+  unfold tie_free. repeat constructor; intro H; unfold Qeq in H; simpl in H; discriminate.
+Qed.
